@@ -170,7 +170,7 @@ Definition first_of (base : list oitem) (nofirst : string) : list oitem :=
   | i :: _ => [mkI 0 (i_err i) "" (i_nwk i) "" None None]
   end.
 
-Definition utils_agree (fmt : string) (eps : list oep) : option string :=
+Definition utils_agree (fmt text : string) (eps : list oep) : option string :=
   let chk (base first multi nofirst : string) : option string :=
       match find_ep base eps with
       | None => Some ("no entry point " ++ base)
@@ -191,9 +191,13 @@ Definition utils_agree (fmt : string) (eps : list oep) : option string :=
              end]
       end in
   if String.eqb fmt "newick" then
+    (* after the fix 6227553 ReadTreeReader parses the first ';'-terminated text as the multi-tree reader cuts it
+       (line breaks dropped), no longer the raw input: compared with its own model *)
     match find_ep "newick.Parser.Parse" eps, find_ep "utils.ReadTreeReader(newick)" eps with
-    | Some a, Some b => if same_items (e_items a) (e_items b) then None
-                        else Some "utils.ReadTreeReader(newick) differs from newick.Parser.Parse"
+    | Some a, Some b =>
+      if negb (String.eqb (e_class b) "ok") then Some "utils.ReadTreeReader(newick): the model predicts neither panic nor hang"
+      else cmp_records "utils.ReadTreeReader(newick)"
+                       [(0, None, first_tree_newick npC (phys_reads (S (String.length text)) bufsz text))] (e_items b)
     | Some a, None => if String.eqb (e_class a) "ok" then Some "no entry point utils.ReadTreeReader(newick)" else None
     | None, _ => Some "no entry point newick.Parser.Parse"
     end
@@ -226,7 +230,7 @@ Definition judge_eps (fmt text : string) (utf8 : bool) (eps : list oep) : verdic
           else match cmp_records epn ms (e_items e) with
                | Some m => VCorr m
                | None =>
-                 match utils_agree fmt eps with
+                 match utils_agree fmt text eps with
                  | Some m => VCorr m
                  | None => VOk true tag
                  end
